@@ -144,7 +144,7 @@ def literal_case(R, L, sk):
         else:
             out = p.value
         if out[0] == 'ok':
-            match = [i for i in rc if wants[i] is not L.REJECT and wants[i] == out[1]]
+            match = [i for i in rc if wants[i] is not L.REJECT and L.same_type(wants[i], out[1])]
         elif out[0] == 'reject':
             match = [i for i in rc if wants[i] is L.REJECT]
         else:
@@ -174,7 +174,7 @@ def literal_case(R, L, sk):
                    for n, v in vals.items() if not isinstance(v, bool)}
             want = L.final_want(sk, reg)
             bad = (real[0] == 'typecheck-raised' or real[0] == 'crash' or (real[0] == 'reject') != (want is L.REJECT)
-                   or (real[0] == 'ok' and real[1] != want))
+                   or (real[0] == 'ok' and not L.same_type(real[1], want)))
             if not bad:
                 raise HarnessError(f'{name}: counterexample {vals} does not reproduce on the real functions ({real} vs {want})')
             cls = {'typecheck-raised': 'literal-value-fails-its-imputed-type', 'reject': 'literal-rejected-but-representable',
@@ -304,7 +304,9 @@ def run(R):
              'hl.literal run; `x is None` / `x is pd.NA` on a symbolic int is False',
              'Part A oracle (harness/C36_lit.want): bool < int32 < int64 widen inside containers, an empty list adopts the '
              'sibling element type, a str-keyed dict is dict<str,T> when its values unify and a struct otherwise, anything '
-             'outside int64 or with an unknown element type is rejected',
+             'outside int64 or with an unknown element type is rejected; structs unify field-wise over the union of their '
+             'fields and the field order of such a unified element struct is not part of the claim (the front end takes it '
+             'from the iteration order of a Python set of types, i.e. it depends on PYTHONHASHSEED)',
              'Part B: programs are chains (each call consumes the previous result; second operands from a fixed pool); a '
              'call that raises TypeError/ExpressionException/ValueError/... is a rejection and ends the program; an '
              'AssertionError raised inside assign_type/compute_type/_compute_type is a violation, any other assert a rejection',
@@ -404,6 +406,6 @@ def replay(path):
            for n, v in vals.items() if not isinstance(v, bool)}
     want = L.final_want(sk, reg)
     bad = (real[0] in ('typecheck-raised', 'crash') or (real[0] == 'reject') != (want is L.REJECT)
-           or (real[0] == 'ok' and real[1] != want))
+           or (real[0] == 'ok' and not L.same_type(real[1], want)))
     print(('property violated: ' if bad else 'property holds: ') + f'{real} vs {want}')
     return 1 if bad else 0
